@@ -1104,7 +1104,15 @@ def optimize_random_greedy_track_flops(
 
     # create initial processor and simplify only once
     cp0 = ContractionProcessor(inputs, output, size_dict, track_flops=True)
+    # indices that appear on every term are dropped by the simplification, as
+    # they only scale the cost of every contraction by a constant factor,
+    # which we need to reinstate in the flops reported at the end
+    batch_factor = 1
     if simplify:
+        if len(cp0.nodes) > 1:
+            for ix, ix_nodes in cp0.edges.items():
+                if len(ix_nodes) >= len(cp0.nodes):
+                    batch_factor *= cp0.sizes[ix]
         cp0.simplify()
 
     if isinstance(costmod, float):
@@ -1154,7 +1162,7 @@ def optimize_random_greedy_track_flops(
             cp0.flops_limit = best_flops
 
     # for consistency with cotengrust / easier comparison
-    best_flops = math.log10(best_flops)
+    best_flops = math.log10(best_flops * batch_factor)
 
     if not use_ssa:
         best_path = ssa_to_linear(best_path, len(inputs))
